@@ -392,6 +392,24 @@ func checksFromFlags() int {
 // the real code and returns nil, ErrSkip or a violation. A panic inside run is
 // a violation too (the harness itself must not panic on valid cases).
 func Run[C any](t *testing.T, prop string, gen func(*rapid.T) C, run func(c C, x *Ctx) error) {
+	RunEnum(t, prop, nil, gen, run)
+}
+
+// shardOf reads the driver's VERIF_SHARD / VERIF_SHARDS (worker i of k); (0, 1) outside the driver.
+func shardOf() (int, int) {
+	var i, k int
+	fmt.Sscanf(os.Getenv("VERIF_SHARD"), "%d", &i)
+	fmt.Sscanf(os.Getenv("VERIF_SHARDS"), "%d", &k)
+	if k <= 0 || i < 0 || i >= k {
+		return 0, 1
+	}
+	return i, k
+}
+
+// RunEnum is Run preceded by an exhaustive pass: every case of enum (a small finite sub-domain written out in
+// full) is executed once, in order, before the generated cases; worker i of k takes the cases whose position is
+// i modulo k. Enumerated cases are accounted, reported and saved for replay exactly like generated ones.
+func RunEnum[C any](t *testing.T, prop string, enum []C, gen func(*rapid.T) C, run func(c C, x *Ctx) error) {
 	test := t.Name()
 	rec := getRecorder(prop, test)
 	rec.stats.Seed = seedFromFlags()
@@ -458,6 +476,40 @@ func Run[C any](t *testing.T, prop string, gen func(*rapid.T) C, run func(c C, x
 		}
 		rec.stats.Completed = true
 		return
+	}
+
+	// ---- exhaustive pass over the enumerated sub-domain
+	if len(enum) > 0 {
+		si, sk := shardOf()
+		for i, c := range enum {
+			if i%sk != si {
+				continue
+			}
+			x := newCtx(nil)
+			x.replaying = true // no drawn choices in an enumerated case
+			cj, _ := json.Marshal(c)
+			if cur := currentCasePath(test); cur != "" {
+				if b, e := json.Marshal(ReplayFile{Property: prop, Test: test, Case: cj, Msg: "the test process died while executing this case"}); e == nil {
+					_ = os.WriteFile(cur, b, 0o644)
+				}
+			}
+			err := exec(c, x)
+			rec.account(x, cj, err)
+			rec.mu.Lock()
+			rec.stats.Classes["enumerated"]++
+			rec.mu.Unlock()
+			if err != nil && !errors.Is(err, ErrSkip) {
+				f := writeReplay(fmt.Sprintf("%s-%s-enum%d.json", prop, sanitize(test), i), c, x, err.Error())
+				rec.mu.Lock()
+				rec.stats.Violations = append(rec.stats.Violations, ViolationRecord{Replay: f, Msg: firstLine(err.Error())})
+				rec.mu.Unlock()
+				rec.flush()
+				t.Errorf("enumerated case %d: %v\nhistory:\n%s", i, err, strings.Join(x.log, "\n"))
+			}
+		}
+		if t.Failed() {
+			return
+		}
 	}
 
 	// ---- generation mode
